@@ -64,44 +64,7 @@ def run(ctx):
     ctx.check(EXPECTED_CLASSES <= classes, "R18.1", "lock-classes-complete",
               "the eight lock classes confirmed by reading are all present", detail=str(sorted(classes)))
 
-    edges = {}      # (held, acquired) -> list of sites
-    blocking_under_guard = []
-    n_sites = 0
-    n_insts = 0
-    for nd in F.nodes:
-        if not nd.get("local") or "calls" not in nd:
-            continue
-        f = F.fn(nd["def"])
-        if f is None:
-            continue
-        n_insts += 1
-        ctx.touch(f)
-        for bb, k, tgt, c in F.inst_edges(nd["id"]):
-            held_locals = f.live_guards_before_term(bb)
-            if not held_locals:
-                continue
-            held = set()
-            for l in held_locals:
-                held |= set(f.guard_classes(l))
-            if k in ("local", "cb"):
-                acq = set(eff[tgt]["acquire"])
-                blk = set(eff[tgt]["block"])
-                callee = F.def_of(tgt)
-            else:
-                e = classify_external(c)
-                acq = {w for kk, w in e if kk == "acquire"}
-                blk = {w for kk, w in e if kk == "block"}
-                callee = callee_path(c)
-            n_sites += 1
-            for h in held:
-                for a in acq:
-                    if h == a and is_iter_advance(f, bb, c, held_locals, h):
-                        ctx.ok("R18.2", "%s|iter-advance|%s" % (f.name, h),
-                               "same-class acquisition is a dashmap iterator advancing to the next shard (ascending read locks, model §3.7)", f.where(bb))
-                        continue
-                    edges.setdefault((h, a), []).append((f, bb, callee))
-            for w in blk:
-                blocking_under_guard.append((f, bb, callee, w, sorted(held)))
+    edges, blocking_under_guard, n_sites, n_insts = lock_graph(ctx)
 
     ctx.analysed["call_sites"] = n_sites
 
@@ -175,6 +138,54 @@ def run(ctx):
         ctx.check(name.endswith("::get_ref") and "CacheD" in name, "R18.5", "%s|guard-escapes" % name,
                   "the only public function returning a guard-holding value is CacheD::get_ref", F.fn(name).where())
     ctx.floor("R18.5", "public functions returning a guard (get_ref)", len(esc), 1)
+
+
+
+def lock_graph(ctx, record_ok=True):
+    """(edges {(held, acquired): [(fn, bb, callee)]}, blocking_under_guard, guarded call sites, instances)"""
+    F = ctx.facts
+    eff = F.effects()
+    edges = {}      # (held, acquired) -> list of sites
+    blocking_under_guard = []
+    n_sites = 0
+    n_insts = 0
+    for nd in F.nodes:
+        if not nd.get("local") or "calls" not in nd:
+            continue
+        f = F.fn(nd["def"])
+        if f is None:
+            continue
+        n_insts += 1
+        ctx.touch(f)
+        for bb, k, tgt, c in F.inst_edges(nd["id"]):
+            held_locals = f.live_guards_before_term(bb)
+            if not held_locals:
+                continue
+            held = set()
+            for l in held_locals:
+                held |= set(f.guard_classes(l))
+            if k in ("local", "cb"):
+                acq = set(eff[tgt]["acquire"])
+                blk = set(eff[tgt]["block"])
+                callee = F.def_of(tgt)
+            else:
+                e = classify_external(c)
+                acq = {w for kk, w in e if kk == "acquire"}
+                blk = {w for kk, w in e if kk == "block"}
+                callee = callee_path(c)
+            n_sites += 1
+            for h in held:
+                for a in acq:
+                    if h == a and is_iter_advance(f, bb, c, held_locals, h):
+                        if record_ok:
+                            ctx.ok("R18.2", "%s|iter-advance|%s" % (f.name, h),
+                                   "same-class acquisition is a dashmap iterator advancing to the next shard (ascending read locks, model §3.7)", f.where(bb))
+                        continue
+                    edges.setdefault((h, a), []).append((f, bb, callee))
+            for w in blk:
+                blocking_under_guard.append((f, bb, callee, w, sorted(held)))
+
+    return edges, blocking_under_guard, n_sites, n_insts
 
 
 def strip_recv(e):
